@@ -7,7 +7,7 @@ VERIF = os.path.dirname(os.path.dirname(os.path.abspath(__file__)))
 CHECKS = {
  'C02': dict(
     technique='Formula.tla: token automaton generating every well-formed formula up to N tokens plus a reference recursive-descent parser/evaluator (values and references) over exact rationals (operator meaning from ExcelValues.tla), model-checked by TLC; every formula compiled and evaluated by pycel in several spellings',
-    text='TLC enumerates all formulas of the grammar (literals incl. doubled quotes/backslash/newline/braces, references, prefix -/+, postfix %, all binary operators, parentheses, SUM/IF calls, ROW/COLUMN/OFFSET/LEN with reference positions kept apart from value positions, references into sheets whose names hold $ ' " or look like generated code) up to 5 tokens (7 thorough; nests of calls up to 13, sampled beyond), checks PrintParse and RedundantParens on the reference semantics and exports (tokens, value); each is rendered with whitespace/case/extra-parentheses variants, compiled with ExcelFormula and evaluated directly and inside a workbook; the result must equal the reference value.',
+    text='TLC enumerates all formulas of the grammar (literals incl. doubled quotes/backslash/newline/braces, references, prefix -/+, postfix %, all binary operators, parentheses, SUM/IF calls, ROW/COLUMN/OFFSET/LEN with reference positions kept apart from value positions, references into sheets whose names hold a dollar sign, an apostrophe, a double quote or look like generated code) up to 5 tokens (7 thorough; nests of calls up to 13, sampled beyond), checks PrintParse and RedundantParens on the reference semantics and exports (tokens, value); each is rendered with whitespace/case/extra-parentheses variants, compiled with ExcelFormula and evaluated directly and inside a workbook; the result must equal the reference value.',
     note='values past the 32-bit guard, non-dyadic comparisons, 0^0, SUM of typed-in text/logicals, two-argument IF are skipped and counted',
     ref='§3 C02'),
  'C01': dict(
